@@ -161,11 +161,18 @@ func (g *Gen) scheds(end int64) string {
 	if n == 0 {
 		return "-"
 	}
+	if g.r.P(g.bad()) || (g.r.P(2) && g.profile != "extreme") {
+		// at the limit on the number of instalments: exactly the maximum, or one more
+		n = types.MaxNumVestingSchedules + g.r.N(2)
+	}
+	big := n >= types.MaxNumVestingSchedules // then the entries themselves stay well-formed
 	// weights: a random partition of 10^18
 	cuts := []uint64{0, 1000000000000000000}
 	for i := 0; i < n-1; i++ {
 		c := g.r.U64() % 1000000000000000000
-		if g.r.P(15) {
+		if big {
+			c = uint64(i+1) * (1000000000000000000 / uint64(n))
+		} else if g.r.P(15) {
 			c = uint64(1 + g.r.N(3))
 		}
 		cuts = append(cuts, c)
@@ -178,14 +185,14 @@ func (g *Gen) scheds(end int64) string {
 		w := cuts[i+1] - cuts[i]
 		t += g.r.PickI(1, nsHour, nsDay, 3*nsDay, 1000000000)
 		ws := fmt.Sprint(w)
-		if g.r.P(g.bad()) {
+		if !big && g.r.P(g.bad()) {
 			ws = g.r.Pick("0", "nil", "1000000000000000001", fmt.Sprint(w+1))
 		}
 		tt := t
-		if g.r.P(g.bad()) {
+		if !big && g.r.P(g.bad()) {
 			tt = end - g.r.PickI(0, 1, nsHour)
 		}
-		if i > 0 && g.r.P(g.bad()) {
+		if i > 0 && !big && g.r.P(g.bad()) {
 			// not strictly after the previous release time: equal, or one nanosecond earlier
 			tt = prevT - g.r.PickI(0, 0, 1)
 		}
